@@ -23,6 +23,9 @@ def handleService (_D : Dev) : List String → Option String
       | .error => "error"
     let s := s!"{rs} results={st.results.map (·.1)} errors={st.errors}"
     pure (two s s)
+  | ["svc_feegroup", blocks, priority] => do
+    let s := toString (feeGroup (feeBlocks (← blocks.toNat?) (if priority = "-" then "" else priority)))
+    pure (two s s)
   | ["svc_hist", hist] => do
     -- a history of cached queries: key:maxProviders:maxErrors:outcomes;...
     let qs ← (hist.splitOn ";").mapM fun q => match q.splitOn ":" with
